@@ -1,9 +1,10 @@
 """C04 (protocol-level): see DESIGN.md section 6/C04 and 12."""
+import k2check
 import k3check
 
 
 def run(tier):
-    return k3check.run("C04", tier)
+    return k3check.run("C04", tier, phases=[k2check.locked_phase("C04")])
 
 
 def replay(path):
